@@ -303,6 +303,17 @@ def run(tier):
                     if not completed:
                         if "beyond the window" in note:
                             v.violation("C09/transfer/window-exceeded", f"{cfg}: blksize={eb} windowsize={ew} file={fl}: {note}", replay)
+                        elif "timeout inside a window" in note:
+                            # fewer blocks than acknowledged arrived before the server stopped sending: a verdict only if
+                            # the same short burst repeats on two serial re-runs (otherwise a stall of the machine)
+                            short = [len(bursts[-1]) if bursts else 0]
+                            for _ in range(2):
+                                _, _, o2, b2, _, comp2, note2 = one_transfer(c)
+                                short.append(len(b2[-1]) if (b2 and not comp2 and "timeout inside a window" in note2) else -1)
+                            if len(set(short)) == 1 and short[0] >= 0:
+                                v.violation("C09/transfer/burst-short", f"{cfg}: acknowledged windowsize {ew} but only {short[0]} block(s) arrive in a burst (3 of 3 runs), file={fl} blksize={eb}", replay)
+                            else:
+                                v.note_inconclusive(f"{cfg}: measured download {c} stalled once: {note} (bursts on re-runs: {short})")
                         else:
                             v.note_inconclusive(f"{cfg}: measured download {c} did not complete: {note}")
                         continue
